@@ -77,3 +77,46 @@ func CodecFor(_ any) codecBinary {
 	}
 	return Codec{}
 }
+
+// JSONCodec is the inverse-pair stub of the protobuf JSON codec (genesis JSON).
+type JSONCodec struct{}
+
+func (JSONCodec) MarshalInterfaceJSON(i proto.Message) ([]byte, error) { return verif.Encode(i), nil }
+func (JSONCodec) UnmarshalInterfaceJSON(bz []byte, ptr interface{}) error {
+	if !verif.DecodeInterface(bz, ptr) {
+		return errors.New("model.JSONCodec: cannot decode interface")
+	}
+	return nil
+}
+func (JSONCodec) MarshalJSON(o proto.Message) ([]byte, error) { return verif.Encode(o), nil }
+func (JSONCodec) MustMarshalJSON(o proto.Message) []byte      { return verif.Encode(o) }
+func (JSONCodec) UnmarshalJSON(bz []byte, ptr proto.Message) error {
+	if !verif.Decode(bz, ptr) {
+		return errors.New("model.JSONCodec: cannot decode")
+	}
+	return nil
+}
+func (c JSONCodec) MustUnmarshalJSON(bz []byte, ptr proto.Message) {
+	if err := c.UnmarshalJSON(bz, ptr); err != nil {
+		panic(err)
+	}
+}
+
+type jsonCodec interface {
+	MarshalInterfaceJSON(i proto.Message) ([]byte, error)
+	UnmarshalInterfaceJSON(bz []byte, ptr interface{}) error
+	MarshalJSON(o proto.Message) ([]byte, error)
+	MustMarshalJSON(o proto.Message) []byte
+	UnmarshalJSON(bz []byte, ptr proto.Message) error
+	MustUnmarshalJSON(bz []byte, ptr proto.Message)
+}
+
+// NativeJSONCodec is set by the native environment (real ProtoCodec).
+var NativeJSONCodec jsonCodec
+
+func JSONCodecFor() jsonCodec {
+	if NativeJSONCodec != nil {
+		return NativeJSONCodec
+	}
+	return JSONCodec{}
+}
